@@ -105,19 +105,20 @@ def find_mnvs_from_adjacent_variants(variants:List[VariantRecord],
             0: [[i]]
         }
         for k in range(1, max_adjacent_as_mnv):
-            # if k not in adjacent_combs:
-            #     break
+            if k - 1 not in adjacent_combs:
+                break
             for comb in adjacent_combs[k - 1]:
                 i_t = comb[-1]
                 if i_t >= len(variants) - 1:
                     continue
+                v_t = variants[i_t]
                 for j in range(i_t + 1, len(variants)):
                     v_j = variants[j]
                     if v_j.type not in compatible_type_map:
                         continue
-                    if v_j.location.start < v_0.location.end:
+                    if v_j.location.start < v_t.location.end:
                         continue
-                    if v_j.location.start > v_0.location.end:
+                    if v_j.location.start > v_t.location.end:
                         break
                     if compatible_type_map[v_j.type] == type0:
                         new_comb = comb + [j]
